@@ -17,7 +17,7 @@ from . import common
 
 ID = "C03"
 RUNS = {"quick": 20000, "thorough": 1500000}
-TIME = {"quick": 75, "thorough": 1500}
+TIME = {"quick": 150, "thorough": 1500}
 WALL = 300.0
 RULE_TEXT = (
     "case kinds: T = seeded (winner, ballot list with duplicates/exhausted/not-winner-led/id+voter-set ballots, threshold in [1, tally]) passed to "
@@ -39,7 +39,27 @@ def case_size(case):
     return {"ballots": len(case.get("ballots", [])), "threshold": case.get("threshold")}
 
 
+def gen_bulk_pile_case(rng, run_seed):
+    """random transfer from a pile of more than 50 000 / 65 536 whole ballots in which the same continuing ranking occurs in
+    several separate entries: the scale at which an implementation may stop expanding unit ballots and start counting them"""
+    cands = CANDS[:4]
+    winner = cands[0]
+    others = cands[1:]
+    big = rng.choice([50001, 60000, 65537, 70001])
+    r1 = [[winner]] + [[c] for c in rng.sample(others, 2)]
+    ballots = [{"r": r1, "w": str(big)}, {"r": [list(g) for g in r1], "w": str(rng.randint(2, 9))},
+               {"r": [[winner], [rng.choice(others)]], "w": str(rng.randint(1, 5))}, {"r": [[winner]], "w": str(rng.randint(1, 5))},
+               {"r": [[others[0]], [winner], [others[1]]], "w": str(rng.randint(1, 9))}]
+    rng.shuffle(ballots)
+    fpv = sum(int(b["w"]) for b in ballots if b["r"][0] == [winner])
+    thr = fpv - rng.randint(3, 20)
+    pol = rng.choice(common.gen_policies(rng, run_seed))
+    return {"kind": "T", "fn": "random", "winner": winner, "ballots": ballots, "threshold": thr, "policies": [pol]}
+
+
 def gen_transfer_case(rng, run_seed):
+    if rng.random() < 0.0015:
+        return gen_bulk_pile_case(rng, run_seed)
     fn = rng.choice(["fractional", "random"])
     n = rng.randint(2, 5)
     # multi-character names half of the time: equal names are then distinct str objects (single characters are shared singletons)
